@@ -458,14 +458,24 @@ PROPERTIES["C16"] = {
         "technique": "bounded model checking of interleavings (z3): CFAs of WaitGroup::wait / done and LoadBalancer::wait_for_connection / deactivate extracted from MIR, scheduler as solver variables",
         "text": "With 1..3 workers calling done() and one task (also: two tasks, as with two concurrent Context::term() calls) in wait(), over all interleavings of the individual counter / Notify operations: the waiter never remains parked on the Notify while the count is zero, done() never underflows, the re-check loop stays within its bound.",
         "design_ref": "DESIGN.md §5 C16",
-        "note": "Only the WaitGroup kernel that Context::term() and socket shutdown wait on. NOT claimed: bounded completion time of close()/term(), errors after close, ports and inproc names being released, no task left running (actors, tokio, OS state).",
+        "note": "Kernels only: the WaitGroup that Context::term() and socket shutdown wait on, the release of parked senders and of parked receivers. NOT claimed: bounded completion time of close()/term(), that the socket core actually stops every session (the step the receive kernel depends on), ports and inproc names being released, no task left running (actors, tokio, OS state).",
     },
-    "outside": "everything except the WaitGroup kernel",
+    "outside": "everything except the WaitGroup, parked-sender and parked-receiver kernels",
 }
+PROPERTIES["C16"]["mirsym"] = [
+    M("c16_blocked_recv_released", "d_c16", "blocked_recv_released",
+      "{AnonymousIngressEngine::recv, recv_multipart, AddressedIngressEngine::recv_logical_message, pop} (coroutine MIR, nested ReadyPipeQueue::pop) parked on an empty queue fed by 1..2 connections, RCVTIMEO -1 or positive (timer never fires); then engine.close() and the end of each session (its sender handle retired as fibre's Drop does), in every order, the parked call polled after each step; fibre's rule 'receivers are woken when the LAST sender handle is gone' is part of the channel model (handle counting)",
+      budget={"quick": 300, "thorough": 300},
+      required_covers=["c16.recv.released-with-error", "c16.recv.call-after-shutdown-fails", "c16.recv.still-parked-after-close-while-a-session-lives"]),
+]
 PROPERTIES["C16"]["cfabmc"].append(
     dict(name="c16_deactivate_releases_all_senders", module="verifkit.cfabmc.lb_check",
          scenarios={"quick": [dict(mode="deactivate", waiters=2)], "thorough": [dict(mode="deactivate", waiters=2), dict(mode="deactivate", waiters=3, K=36)]},
          timeout_ms={"quick": 600000, "thorough": 3000000}, tiers=("quick", "thorough")))
+PROPERTIES["C16"]["manifest"]["text"] += " A recv parked on an empty queue (PULL/SUB and REQ/REP/DEALER/ROUTER ingress engines) is released with an error once the engine has been closed and every session has dropped its sender - in whichever order that happens - and calls made afterwards fail at their first poll; close() alone does not release it while a session still holds a sender (witnessed)."
+PROPERTIES["C16"]["manifest"]["engine"] = "cfabmc+mirsym"
+PROPERTIES["C16"]["manifest"]["technique"] += "; symbolic execution (mirsym) of the ingress engines' receive coroutines through the shutdown steps"
+PROPERTIES["C16"]["assumptions"] = PROPERTIES["C16"]["assumptions"] + MIRSYM_TRUST + ["fibre mpmc: close()/drop of a sender handle retires that handle; parked receivers get Disconnected when the last sender handle is gone and the queue is empty (read from fibre 0.5.13 mpmc_v2/mod.rs close_internal)"]
 PROPERTIES["C16"]["manifest"]["text"] += " Closing a socket releases every sender parked in wait_for_connection: with 2 (3) senders parked and one deactivate(), no sender remains parked at the end of any interleaving."
 PROPERTIES["C13"]["cfabmc"] = [
     dict(name="c13_wait_for_connection", module="verifkit.cfabmc.lb_check", scenarios={"quick": [dict()], "thorough": [dict(K=20, wait_ops=12)]},
